@@ -17,7 +17,7 @@ def run(args, prop="C15", reps=1, finish=True):
                        "absent per module, globals x and hist and helper h in every module, every import list incl. private "
                        "items, missing items, a missing module and cycles; 663552 graphs, this run %s of them): per import "
                        "item the specified verdict, for accepted graphs the specified output; analysed once and run on both "
-                       "backends; import statements in 2 (thorough: 3) different orders; non-trivial = distinct rendered graphs" % ("all" if thorough else "1/%d" % nsl))
+                       "backends; import statements in 2 (thorough: 3) different orders, two naming schemes (b / c, and lib / lib_x with x_h, x_hist against h, hist); non-trivial = distinct rendered graphs" % ("all" if thorough else "1/%d" % nsl))
     seen = {}
     for sl in (range(nsl) if thorough and prop == "C15" else [C.seed() % nsl]):
         r = C.run_tlc("HmsLink", L.cfg(sl, nsl), timeout=2400, heap="16g")
@@ -30,11 +30,12 @@ def run(args, prop="C15", reps=1, finish=True):
     rep.notes["unspecified_graphs_skipped"] = len(seen) - len(cases)
     pool = C.Pool(C.build_worker())
     reqs, meta = [], []
-    orders = (0, 1, 2) if thorough else (0, 1 + C.seed() % 2)
+    # (order of the import statements, naming scheme)
+    orders = ((0, 0), (1, 1), (2, 0), (2, 1)) if thorough else ((0, C.seed() % 2), (1 + C.seed() % 2, 1 - C.seed() % 2))
     for c in cases:
         done = set()
-        for order in orders:
-            mods, lines = L.render(c["g"], order)
+        for order, naming in orders:
+            mods, lines = L.render(c["g"], order, naming)
             key = json.dumps(mods, sort_keys=True)
             if key in done:
                 continue
@@ -43,13 +44,13 @@ def run(args, prop="C15", reps=1, finish=True):
             for b in ("vm", "tree"):
                 for k in range(reps):
                     reqs.append({"op": "run", "id": len(reqs), "a": {"modules": mods, "entry": "main", "backend": b, "timeout_ms": 8000}})
-                    meta.append((c, mods, lines, b, order, k))
+                    meta.append((c, mods, lines, b, naming, k))
     res = pool.map(reqs, timeout=30)
     first = {}
-    for (c, mods, lines, b, order, k), rr in zip(meta, res):
+    for (c, mods, lines, b, naming, k), rr in zip(meta, res):
         rep.count()
         g = c["g"]
-        feat = {"family": "graph", "backend": b, "overlap": L.overlap(g), "hasc": g["hasc"], "accepted": c["accepted"]}
+        feat = {"family": "graph", "backend": b, "overlap": L.overlap(g), "hasc": g["hasc"], "accepted": c["accepted"], "naming": naming}
         if "crash" in rr or "hang" in rr:
             from .sem import panic_class
             rep.fail(dict(feat, kind="hostcrash" if "crash" in rr else "hang", panic=panic_class((rr.get("crash") or {}).get("stderr", ""))),
@@ -73,7 +74,7 @@ def run(args, prop="C15", reps=1, finish=True):
         exp_err = {(e[0], e[1][0], e[1][1]): e[2] for e in c["errors"]}
         if b == "vm":      # the analysis is the same for both backends: judge it once
             for (m, item, frm), line in lines.items():
-                here = [e for e in errs if e["file"] == m and e["span"]["s"][0] == line]
+                here = [e for e in errs if e["file"] == L.fname(m, naming) and e["span"]["s"][0] == line]
                 want = exp_err.get((m, item, frm))
                 if want == "cycle":
                     if not any("cyclic" in e["msg"].lower() for e in errs):
